@@ -65,13 +65,36 @@ fn dom() -> Vec<TRow> {
     ]
 }
 
+/// row of the second table kind `t(a INT, b INT)`: two columns of the SAME type over the same values, so
+/// that rows which are permutations of each other ((1,2) / (2,1), (NULL,1) / (1,NULL)) and rows made of
+/// an equal pair ((1,1), (2,2), (NULL,NULL)) occur — DISTINCT must keep all of them apart
+type IRow = (Option<i64>, Option<i64>);
+
 #[derive(Clone, Debug)]
 struct TableSpec {
     pk: bool,
     rows: Vec<TRow>,
     fixed: bool,
+    /// Some = the table is `t(a INT, b INT)` with these rows (`rows` is empty then)
+    ab: Option<Vec<IRow>>,
 }
 impl TableSpec {
+    fn nrows(&self) -> usize {
+        self.ab.as_ref().map(|r| r.len()).unwrap_or(self.rows.len())
+    }
+    fn null_free(&self) -> bool {
+        match &self.ab {
+            Some(r) => r.iter().all(|(a, b)| a.is_some() && b.is_some()),
+            None => self.rows.iter().all(|(a, c)| a.is_some() && c.is_some()),
+        }
+    }
+    fn bases(&self) -> Vec<Base> {
+        if self.ab.is_some() {
+            bases_ab(self.pk)
+        } else {
+            bases(self.pk)
+        }
+    }
     fn variant(&self) -> &'static str {
         if self.pk {
             "pk"
@@ -80,14 +103,36 @@ impl TableSpec {
         }
     }
     fn rows_json(&self) -> Value {
-        json!(self.rows.iter().map(|(a, c)| json!([a, c])).collect::<Vec<_>>())
+        match &self.ab {
+            Some(r) => json!(r.iter().map(|(a, b)| json!([a, b])).collect::<Vec<_>>()),
+            None => json!(self.rows.iter().map(|(a, c)| json!([a, c])).collect::<Vec<_>>()),
+        }
     }
     fn from_json(case: &Value) -> TableSpec {
         let pk = case["variant"].as_str() == Some("pk");
+        if case["kind"].as_str() == Some("ab") {
+            let rows = case["rows"].as_array().map(|a| a.iter().map(|r| (r[0].as_i64(), r[1].as_i64())).collect()).unwrap_or_default();
+            return TableSpec { pk, rows: vec![], fixed: false, ab: Some(rows) };
+        }
         let rows = case["rows"].as_array().map(|a| a.iter().map(|r| (r[0].as_i64(), r[1].as_str().map(|s| s.to_string()))).collect()).unwrap_or_default();
-        TableSpec { pk, rows, fixed: false }
+        TableSpec { pk, rows, fixed: false, ab: None }
     }
     fn model_rows(&self) -> Vec<Row> {
+        if let Some(ab) = &self.ab {
+            return ab
+                .iter()
+                .enumerate()
+                .map(|(i, (a, b))| {
+                    let mut r = vec![];
+                    if self.pk {
+                        r.push(V::Int(i as i64 + 1));
+                    }
+                    r.push(a.map(V::Int).unwrap_or(V::Null));
+                    r.push(b.map(V::Int).unwrap_or(V::Null));
+                    r
+                })
+                .collect();
+        }
         self.rows
             .iter()
             .enumerate()
@@ -104,8 +149,15 @@ impl TableSpec {
     }
 }
 
+/// the 9 rows of {NULL,1,2} x {NULL,1,2} in a scrambled order (neither column is monotone)
+fn dom_ab() -> Vec<IRow> {
+    vec![(Some(2), Some(1)), (None, Some(2)), (Some(1), None), (Some(2), Some(2)), (Some(1), Some(1)), (None, None), (Some(2), None), (Some(1), Some(2)), (None, Some(1))]
+}
+
 fn multisets(kmax: usize) -> Vec<Vec<TRow>> {
-    let d = dom();
+    multisets_of(&dom(), kmax)
+}
+fn multisets_of<T: Clone>(d: &[T], kmax: usize) -> Vec<Vec<T>> {
     let mut out = vec![];
     for k in 0..=kmax {
         let mut idx = vec![0usize; k];
@@ -144,23 +196,50 @@ fn fixed_tables() -> Vec<Vec<TRow>> {
     ]
 }
 
-/// enumerated tables with <= kfull rows, then the fixed tables, then the deeper enumerated tables
-fn all_tables(kmax: usize, kfull: usize) -> Vec<TableSpec> {
+fn fixed_tables_ab() -> Vec<Vec<IRow>> {
+    let p = |a: i64, b: i64| (Some(a), Some(b));
+    vec![
+        // NULL-free: both permutations and both equal pairs, every row twice
+        vec![p(1, 2), p(2, 1), p(1, 1), p(2, 2), p(2, 1), p(1, 2), p(2, 2), p(1, 1)],
+        // permutations through NULL + the all-NULL row, with duplicates
+        vec![(None, Some(1)), (Some(1), None), (None, None), (None, Some(1)), (Some(2), None), (None, Some(2)), (Some(1), None), (None, None)],
+    ]
+}
+
+/// enumerated tables with <= kfull rows (a,c then a,b), then the fixed tables, then the deeper enumerated
+/// tables (a,b with <= kmax_ab rows first: they are the cheaper ones)
+fn all_tables(kmax: usize, kfull: usize, kmax_ab: usize) -> Vec<TableSpec> {
     let mut out = vec![];
     let ms = multisets(kmax);
+    let ms_ab = multisets_of(&dom_ab(), kmax_ab);
     for rows in ms.iter().filter(|r| r.len() <= kfull) {
         for pk in [false, true] {
-            out.push(TableSpec { pk, rows: rows.clone(), fixed: false });
+            out.push(TableSpec { pk, rows: rows.clone(), fixed: false, ab: None });
+        }
+    }
+    for rows in ms_ab.iter().filter(|r| r.len() <= kfull) {
+        for pk in [false, true] {
+            out.push(TableSpec { pk, rows: vec![], fixed: false, ab: Some(rows.clone()) });
         }
     }
     for rows in fixed_tables() {
         for pk in [false, true] {
-            out.push(TableSpec { pk, rows: rows.clone(), fixed: true });
+            out.push(TableSpec { pk, rows: rows.clone(), fixed: true, ab: None });
+        }
+    }
+    for rows in fixed_tables_ab() {
+        for pk in [false, true] {
+            out.push(TableSpec { pk, rows: vec![], fixed: true, ab: Some(rows.clone()) });
+        }
+    }
+    for rows in ms_ab.iter().filter(|r| r.len() > kfull) {
+        for pk in [false, true] {
+            out.push(TableSpec { pk, rows: vec![], fixed: false, ab: Some(rows.clone()) });
         }
     }
     for rows in ms.iter().filter(|r| r.len() > kfull) {
         for pk in [false, true] {
-            out.push(TableSpec { pk, rows: rows.clone(), fixed: false });
+            out.push(TableSpec { pk, rows: rows.clone(), fixed: false, ab: None });
         }
     }
     out
@@ -175,6 +254,11 @@ fn v_rows() -> Vec<Row> {
     vec![vec![V::Int(1), t("a")], vec![V::Int(3), t("c")], vec![V::Int(3), t("a")], vec![V::Int(2), t("b")]]
 }
 
+/// UNION partner of the (a INT, b INT) tables
+fn w_rows() -> Vec<Row> {
+    vec![vec![V::Int(1), V::Int(2)], vec![V::Int(3), V::Int(3)], vec![V::Null, V::Int(1)], vec![V::Int(2), V::Int(2)]]
+}
+
 fn values_sql(rows: &[Row]) -> String {
     rows.iter().map(|r| format!("({})", r.iter().map(sqlh::lit).collect::<Vec<_>>().join(", "))).collect::<Vec<_>>().join(", ")
 }
@@ -184,10 +268,12 @@ fn setup(base: &std::path::Path, name: &str, spec: &TableSpec) -> Result<(TestDb
     let t = TestDb::create(base, name)?;
     let mut stmts = vec![];
     let trows = spec.model_rows();
+    let ab = spec.ab.is_some();
+    let second = if ab { "b INT" } else { "c TEXT" };
     if spec.pk {
-        stmts.push("CREATE TABLE t (id INT PRIMARY KEY, a INT, c TEXT)".to_string());
+        stmts.push(format!("CREATE TABLE t (id INT PRIMARY KEY, a INT, {second})"));
     } else {
-        stmts.push("CREATE TABLE t (a INT, c TEXT)".to_string());
+        stmts.push(format!("CREATE TABLE t (a INT, {second})"));
     }
     if !trows.is_empty() {
         stmts.push(format!("INSERT INTO t VALUES {}", values_sql(&trows)));
@@ -196,14 +282,20 @@ fn setup(base: &std::path::Path, name: &str, spec: &TableSpec) -> Result<(TestDb
     stmts.push(format!("INSERT INTO u VALUES {}", values_sql(&u_rows())));
     stmts.push("CREATE TABLE v (a INT, c TEXT)".to_string());
     stmts.push(format!("INSERT INTO v VALUES {}", values_sql(&v_rows())));
+    if ab {
+        stmts.push("CREATE TABLE w (a INT, b INT)".to_string());
+        stmts.push(format!("INSERT INTO w VALUES {}", values_sql(&w_rows())));
+    }
     for s in &stmts {
         let r = t.exec(s);
         if !r.ok() {
             return Err(format!("setup `{s}`: {}", r.show()));
         }
     }
-    let tcols: Vec<(&str, Ty)> = if spec.pk { vec![("id", Ty::Int), ("a", Ty::Int), ("c", Ty::Text)] } else { vec![("a", Ty::Int), ("c", Ty::Text)] };
+    let c2 = if ab { ("b", Ty::Int) } else { ("c", Ty::Text) };
+    let tcols: Vec<(&str, Ty)> = if spec.pk { vec![("id", Ty::Int), ("a", Ty::Int), c2] } else { vec![("a", Ty::Int), c2] };
     let mdb = mq::Database::new()
+        .with("w", Table::new(&[("a", Ty::Int), ("b", Ty::Int)], w_rows()))
         .with("t", Table::new(&tcols, trows.clone()))
         .with("u", Table::new(&[("a", Ty::Int), ("d", Ty::Text)], u_rows()))
         .with("v", Table::new(&[("a", Ty::Int), ("c", Ty::Text)], v_rows()));
@@ -345,6 +437,55 @@ fn bases(pk: bool) -> Vec<Base> {
         };
         out.push(Base { name, combo: name, distinct: "all", query: Query::set_op(SetOp::Union, all, side("t"), side("v")), atoms: ac_atoms_noexpr(), full_pairs: true });
     }
+    out
+}
+
+/// Query bases on the `t(a INT, b INT)` tables: the DISTINCT sub-space over two same-typed columns (rows
+/// that are permutations of each other, rows of equal pairs), on scan, aggregate, join and UNION plans.
+fn bases_ab(pk: bool) -> Vec<Base> {
+    use ex::{col, count_star, qcol};
+    let w = || ex::or(ex::is_null(col("a")), ex::is_not_null(col("a")));
+    let ab = |oa: usize, ob: usize| vec![ae("a", "col", 0, col("a")), ae("b", "col", 1, col("b")), ao("ord_a", 0, oa), ao("ord_b", 1, ob)];
+    let mut out = vec![];
+    let (oa, ob) = if pk { (2, 3) } else { (1, 2) };
+    out.push(Base { name: "ab-star", combo: "plain-star", distinct: "all", query: Query::star("t"), atoms: ab(oa, ob), full_pairs: false });
+    out.push(Base { name: "ab-distinct-ab", combo: "plain", distinct: "distinct2", query: Query::cols("t", vec![col("a"), col("b")]).where_(w()).distinct(), atoms: ab(1, 2), full_pairs: true });
+    out.push(Base { name: "ab-distinct-ba", combo: "plain", distinct: "distinct2", query: Query::cols("t", vec![col("b"), col("a")]).where_(w()).distinct(), atoms: ab(2, 1), full_pairs: true });
+    out.push(Base { name: "ab-distinct-aba", combo: "plain", distinct: "distinct2", query: Query::cols("t", vec![col("a"), col("b"), col("a")]).where_(w()).distinct(), atoms: vec![ae("a", "col", 0, col("a")), ae("b", "col", 1, col("b"))], full_pairs: true });
+    if !pk {
+        out.push(Base { name: "ab-distinct-ab-nowhere", combo: "plain-nowhere", distinct: "distinct2", query: Query::cols("t", vec![col("a"), col("b")]).distinct(), atoms: ab(1, 2), full_pairs: true });
+        out.push(Base { name: "ab-distinct-star", combo: "plain-star", distinct: "distinct2", query: Query::star("t").distinct(), atoms: vec![ae("a", "col", 0, col("a")), ae("b", "col", 1, col("b"))], full_pairs: true });
+    }
+    // (b, COUNT(*)) per (a,b) group: the count is a second INT column, so (1,2)/(2,1) and (1,1)/(2,2) occur
+    out.push(Base {
+        name: "ab-groupby-distinct",
+        combo: "groupby",
+        distinct: "distinct2",
+        query: Query::cols("t", vec![col("b"), count_star()]).group_by(vec![col("a"), col("b")]).distinct(),
+        atoms: vec![ae("b", "col", 0, col("b")), ae("count", "agg", 1, count_star()), ao("ord_b", 0, 1), ao("ord_count", 1, 2)],
+        full_pairs: true,
+    });
+    // join path (own de-duplication): DISTINCT t.a, t.b over t JOIN u ON t.b = u.a (u.a = 1 twice: every
+    // t row with b = 1 is produced twice)
+    let jf = From::table("t").join(JoinKind::Inner, From::table("u"), Some(ex::eq(qcol("t", "b"), qcol("u", "a"))));
+    out.push(Base {
+        name: "ab-join-distinct",
+        combo: "join",
+        distinct: "distinct2",
+        query: Query::select(vec![SelectItem::expr(qcol("t", "a")), SelectItem::expr(qcol("t", "b"))], jf).distinct(),
+        atoms: vec![ae("t.a", "col", 0, qcol("t", "a")), ae("t.b", "col", 1, qcol("t", "b")), ao("ord_a", 0, 1), ao("ord_b", 1, 2)],
+        full_pairs: true,
+    });
+    // UNION (de-duplicating) with w
+    let side = |tbl: &str| {
+        let q = Query::cols(tbl, vec![col("a"), col("b")]);
+        if pk {
+            q.where_(w())
+        } else {
+            q
+        }
+    };
+    out.push(Base { name: "ab-union", combo: "union", distinct: "all", query: Query::set_op(SetOp::Union, false, side("t"), side("w")), atoms: ab(1, 2), full_pairs: true });
     out
 }
 
@@ -565,6 +706,7 @@ impl QueryCase<'_> {
     fn json(&self, sql: &str) -> Value {
         json!({
             "variant": self.spec.variant(),
+            "kind": if self.spec.ab.is_some() { "ab" } else { "ac" },
             "rows": self.spec.rows_json(),
             "base": self.base.name,
             "keys": self.shape.iter().map(|(i, d)| json!([self.base.atoms[*i].name, d])).collect::<Vec<_>>(),
@@ -609,6 +751,17 @@ fn check_one(t: &TestDb, mdb: &mq::Database, qc: &QueryCase, rep: &mut Reporter,
     let wsig = window_sig(m, qc.limit, qc.offset);
     match fail {
         None => {
+            if !dry && qc.base.distinct == "distinct2" && qc.shape.is_empty() && qc.limit.is_none() && qc.offset.is_none() {
+                // vacuity evidence: DISTINCT answers that hold rows which are column permutations of each
+                // other / several rows made of one repeated value
+                let f: Vec<&Row> = exp.full.iter().filter(|r| r.len() == 2).collect();
+                if f.iter().enumerate().any(|(i, x)| f[..i].iter().any(|y| x[0] == y[1] && x[1] == y[0] && x[0] != x[1])) {
+                    rep.count("distinct2_results_with_permuted_rows", 1);
+                }
+                if f.iter().filter(|r| r[0] == r[1]).count() >= 2 {
+                    rep.count("distinct2_results_with_equal_pair_rows", 1);
+                }
+            }
             if !dry {
                 rep.outcome(&format!("{}/{}/{}/pass", qc.base.combo, if qc.shape.is_empty() { "noorder" } else { "ordered" }, wsig));
                 match exp.window() {
@@ -769,15 +922,18 @@ impl Check for C15 {
         rep.bound("full_pass_max_rows", json!(kfull));
         rep.bound("max_rows_enumerated_tables", json!(kmax));
         rep.bound("fixed_tables_rows", json!(8));
-        for c in ["queries", "queries_ordered", "queries_windowed", "pass_window_exact", "pass_window_tie_ambiguous", "plan_op_Sort", "plan_op_TopK", "plan_op_Limit", "plan_op_HashAggregate"] {
+        for c in ["tables_ab", "queries_ab-distinct-ab", "queries_ab-distinct-ba", "distinct2_results_with_permuted_rows", "distinct2_results_with_equal_pair_rows", "queries", "queries_ordered", "queries_windowed", "pass_window_exact", "pass_window_tie_ambiguous", "plan_op_Sort", "plan_op_TopK", "plan_op_Limit", "plan_op_HashAggregate"] {
             rep.expect_nonzero(c);
         }
-        let tables = all_tables(kmax, kfull);
+        let kmax_ab = ctx.opt("kmax_ab").and_then(|s| s.parse().ok()).unwrap_or(ctx.tier.pick(3usize, 5usize));
+        rep.bound("max_rows_enumerated_tables_ab", json!(kmax_ab));
+        let tables = all_tables(kmax, kfull, kmax_ab);
         rep.bound("tables", json!(tables.len()));
         // work is split by table (one database per table); a fixed 8-row table is split by base
         let mut slot = 0u64;
         for (ti, spec) in tables.iter().enumerate() {
-            let mut bs = bases(spec.pk);
+            let mut bs = spec.bases();
+            let first_name = bs[0].name;
             if let Some(ob) = &only_base {
                 bs.retain(|b| b.name == ob);
             }
@@ -798,13 +954,16 @@ impl Check for C15 {
             };
             if !mine.is_empty() {
                 let explain = spec.fixed || (ti / 2) % 16 == 3;
-                let deep = !spec.fixed && spec.rows.len() > kfull;
-                let first = mine[0].name == "plain-star";
+                let deep = !spec.fixed && spec.nrows() > kfull;
+                let first = mine[0].name == first_name;
                 run_table(ctx, rep, spec, ti, &mine, explain, deep);
                 if first {
                     // (a fixed table is shared by several workers: count it once)
                     rep.count("tables", 1);
-                    if spec.rows.iter().all(|(a, c)| a.is_some() && c.is_some()) {
+                    if spec.ab.is_some() {
+                        rep.count("tables_ab", 1);
+                    }
+                    if spec.null_free() {
                         rep.count("tables_null_free", 1);
                     }
                     if deep {
@@ -813,7 +972,7 @@ impl Check for C15 {
                 }
             }
             if ctx.expired() {
-                rep.capped(&format!("deadline at table #{ti} ({} rows{}): every table with fewer rows was covered", spec.rows.len(), if spec.fixed { ", fixed" } else { "" }));
+                rep.capped(&format!("deadline at table #{ti} ({} rows{}): every table with fewer rows was covered", spec.nrows(), if spec.fixed { ", fixed" } else { "" }));
                 return;
             }
         }
@@ -821,7 +980,7 @@ impl Check for C15 {
 
     fn replay(&self, ctx: &Ctx, case: &Value, rep: &mut Reporter) {
         let spec = TableSpec::from_json(case);
-        let bs = bases(spec.pk);
+        let bs = spec.bases();
         let Some(base) = bs.iter().find(|b| Some(b.name) == case["base"].as_str()) else {
             rep.note("replay: unknown base");
             return;
